@@ -432,11 +432,11 @@ def RunGood (sh : Sh p) (w : FW p) : Prop :=
 
 The end-to-end harness cannot name hosts and backends; it runs a fault-free TWIN controller on the
 same history and reports, per reconcile, the files the twin wrote (in write order, split at the
-dynamic update) with their content, whether it asked for a reload and how many Sends it made.
-Because `Commit()` runs on every path, the in-memory model of the faulty controller is the twin's;
-so the faulty controller attempts exactly the twin's writes, stops at the first file that cannot
-be written, and never comes back to it: that is what `wstep` replays.  Content is split in
-`ns` (everything but server lines) and `srv` (the server lines: what runtime commands change). -/
+dynamic update), whether it asked for a reload and how many Sends it made.  Because `Commit()` runs
+on every path, the in-memory model of the faulty controller is the twin's; so the faulty controller
+attempts the twin's writes — or, while `rewriteOwed`, every file of the current model — and stops
+at the first file that cannot be written.  `wstep` replays that and predicts the error flag of
+every reconcile and whether the history ends converged (nothing owed). -/
 
 structure FileFact where
   name : String
@@ -463,100 +463,68 @@ def put (m : List FileFact) (f : FileFact) : List FileFact :=
 
 def get? (m : List FileFact) (n : String) : Option FileFact := m.find? (·.name == n)
 
-/-- writes `fs` in order until the first blocked file; returns the files and whether it stopped -/
-def writeUntil (blocked : List String) (disk : List FileFact) : List FileFact → List FileFact × Bool
-  | [] => (disk, false)
-  | f :: fs => if blocked.contains f.name then (disk, true) else writeUntil blocked (put disk f) fs
-
-structure WState where
-  disk : List FileFact := []      -- files of the faulty controller
-  twin : List FileFact := []      -- files of the twin
-  run : List FileFact := []       -- what the faulty controller's HAProxy holds
-  errs : List Bool := []
-  preFault : Bool := false        -- a write failed before stage 4: objects without `pathConfig` exist
-  fmFault : Bool := false         -- `frontend.Maps` is older than the hosts
-  mapsNil : Bool := true          -- `frontend.Maps == nil`: WriteFrontendMaps never succeeded
-  front : List FileFact := []     -- the frontend files as of the twin's last WriteFrontendMaps
-  known : Nat := 0                -- number of leading reconciles the facts describe exactly
-  unknown : Bool := false         -- the facts of the twin no longer describe the faulty controller
-
 def isFront (n : String) : Bool := n.startsWith "maps/_front_"
 def crtList : String := "maps/_front_bind_crt.list"
+def isCfg (n : String) : Bool := n.startsWith "cfg/"
 
-/-- write order of the files written before the dynamic update -/
-def preRank (n : String) : Nat :=
-  if n.startsWith "maps/_tcp_sni_" then 0
-  else if n == crtList then 1
-  else if isFront n then 2
-  else if n.startsWith "maps/_back_" then 3
-  else 4
+structure WState where
+  twin : List FileFact := []      -- files of the twin
+  run : List FileFact := []       -- server tables HAProxy holds, per file, in terms of the twin's facts
+  errs : List Bool := []
+  owed : Bool := false            -- `rewriteOwed`
+  rowed : Bool := false           -- `reloadOwed`
+  mapsNil : Bool := true          -- `frontend.Maps == nil`: WriteFrontendMaps never succeeded
+  front : List FileFact := []     -- the frontend files as of the twin's last WriteFrontendMaps
+  known : Nat := 0                -- number of leading reconciles whose error flag the facts determine
+  unknown : Bool := false
 
 def wstep (st : WState) (t : StepFact) (f : WFault) : WState :=
   let twin := (t.pre ++ t.post).foldl put st.twin
   let blocked := match f with | .files l => l | _ => []
+  let isBlocked : FileFact → Bool := fun g => blocked.contains g.name
   let adminFault := f == .admin && decide (0 < t.sends)
-  -- hidden couplings the facts cannot express (modelled exactly in `upd`, see `pcI`/`pcD`, `mainHosts`)
-  -- `preFault`: besides `pathConfig`, `alignSlots` did not run for the objects of the failed update; the
-  -- next update that reloads aligns (and flags, and rewrites) them
-  let unknown := st.unknown || adminFault || (st.preFault && (decide (0 < t.sends) || t.reload)) ||
-    (st.fmFault && t.post.any (·.name == "cfg/haproxy.cfg") && !(t.pre.any (·.name == crtList)))
-  -- while `frontend.Maps == nil` the guard of WriteFrontendMaps does not skip: the faulty controller
-  -- writes the frontend files (the twin's current ones) even though the twin does not
   let writesFront := t.pre.any (·.name == crtList)
   let front := if writesFront then t.pre.filter fun g => isFront g.name else st.front
-  let extra := if st.mapsNil && !writesFront then
-      (front.filter fun g => g.name == crtList) ++ (front.filter fun g => g.name != crtList)
-    else []
-  let st := { st with front := front, known := if unknown then st.known else st.known + 1 }
-  let pre := (t.pre.filter fun g => preRank g.name == 0) ++ extra ++ (t.pre.filter fun g => preRank g.name != 0)
-  let (d1, stop1) := writeUntil blocked st.disk pre
-  if stop1 then
-    { st with disk := d1, twin := twin, errs := st.errs ++ [true], preFault := true
-              fmFault := st.fmFault || (blocked.any isFront && !st.mapsNil), unknown := unknown }
-  else
-  let st := { st with mapsNil := st.mapsNil && !writesFront && extra.isEmpty }
-  let fmFault := st.fmFault && !writesFront
-  -- the Sends reach HAProxy before writeConfig.  They are computed against the servers the in-memory
-  -- model believes to be running (the twin's files before this step); HAProxy answers "No such
-  -- server." for a file it never read, and the update falls back to a reload
+  -- files the faulty controller writes before the dynamic update: the twin's; the frontend files too
+  -- while `frontend.Maps == nil`; every current map while a rewrite is owed
+  let pre := t.pre ++ (if st.mapsNil || st.owed then front else []) ++
+    (if st.owed then twin.filter fun g => !isCfg g.name && !isFront g.name else [])
+  -- Sends are computed against the servers the in-memory model believes to be running; a HAProxy that
+  -- holds something else may answer "No such server.", the update then reloads
   let changed := t.post.filter fun g => (get? st.twin g.name).map (·.srv) != some g.srv
   let knows := changed.all fun g => (get? st.run g.name).map (·.srv) == (get? st.twin g.name).map (·.srv)
   let sending := decide (0 < t.sends)
-  let (d2, stop2) := writeUntil blocked d1 t.post
-  -- Sends of an update that reloads anyway: which of them changed a running server is not in the facts;
-  -- it only matters when the reload does not follow
-  -- (a fallback to a reload runs `alignSlots`, which the twin did not: server slots differ from then on)
-  let unknown := unknown || (sending && !knows) ||
-    (sending && t.reload && (stop2 || f == .reloadSend || f == .reloadResult))
+  let unknown := st.unknown || (sending && !knows && !adminFault)
+  let st := { st with twin := twin, front := front, unknown := unknown, known := if unknown then st.known else st.known + 1 }
+  if pre.any isBlocked then
+    { st with errs := st.errs ++ [true], owed := true }
+  else
+  let st := { st with mapsNil := st.mapsNil && !writesFront && front.isEmpty && !st.owed }
   let applied := sending && !adminFault && knows
-  let needReload := t.reload || (sending && !applied)
-  let run1 := if applied && !t.reload then
+  let updated := !t.reload && !st.owed && (!sending || applied)
+  let run1 := if applied then
       t.post.foldl (fun r g => match get? r g.name with
         | some h => put r { h with srv := g.srv }
         | none => r) st.run
     else st.run
-  if stop2 then
-    { st with disk := d2, twin := twin, run := run1, errs := st.errs ++ [true], fmFault := fmFault, unknown := unknown }
+  -- haproxy.cfg and friends: the twin's, or all of them when the update does not end "updated"
+  let post := t.post ++ (if !updated then twin.filter fun g => isCfg g.name && (st.owed || !g.name.startsWith "cfg/haproxy5-") else [])
+  if post.any isBlocked then
+    { st with errs := st.errs ++ [true], owed := true, run := run1 }
   else
-  if needReload then
+  if !updated || st.rowed then
     if f == .reloadSend || f == .reloadResult then
-      { st with disk := d2, twin := twin, run := run1, errs := st.errs ++ [true], fmFault := fmFault, unknown := unknown }
+      { st with errs := st.errs ++ [true], owed := false, rowed := true, run := run1 }
     else
-      { st with disk := d2, twin := twin, run := d2, errs := st.errs ++ [false], fmFault := fmFault, unknown := unknown }
+      { st with errs := st.errs ++ [false], owed := false, rowed := false, run := twin.filter fun g => isCfg g.name }
   else
-    { st with disk := d2, twin := twin, run := run1, errs := st.errs ++ [false], fmFault := fmFault, unknown := unknown }
+    { st with errs := st.errs ++ [false], owed := false, run := run1 }
 
 def wrun (st : WState) : List (StepFact × WFault) → WState
   | [] => st
   | (t, f) :: r => wrun (wstep st t f) r
 
-/-- files whose content differs from the twin's -/
-def WState.diff (st : WState) : List String :=
-  (st.twin.filter fun t => get? st.disk t.name != some t).map (·.name)
-/-- files that HAProxy did not read as they are now (server lines aside) -/
-def WState.unloaded (st : WState) : List String :=
-  (st.disk.filter fun d => (get? st.run d.name).map (·.ns) != some d.ns).map (·.name)
-def WState.tableOK (st : WState) : Bool :=
-  st.disk.all fun d => ((get? st.run d.name).map (·.srv)).getD "0" == d.srv
+/-- nothing is owed at the end: the files are the model's, HAProxy read them -/
+def WState.converged (st : WState) : Bool := !st.owed && !st.rowed
 
 end HapVerif.C12
